@@ -11,6 +11,7 @@ result at the same stored coordinates.
 from __future__ import annotations
 
 import itertools
+import operator
 
 import mpmath
 import sympy
@@ -62,6 +63,9 @@ def shards(tier):
                         out.append({"op": op.key, "dimA": dimA, "dimB": dimB, "sysA": list(sa)})
                 else:
                     out.append({"op": op.key, "dimA": dimA, "dimB": dimB})
+    for dim in (2, 3, 4):
+        for sysx in L.SYSTEMS[dim]:
+            out.append({"kind": "inplace", "dim": dim, "sys": list(sysx)})
     return out
 
 
@@ -252,8 +256,83 @@ def run_expr(res: Result, op, sa, sb, flavor, tier):
             res.nontrivial += 1
 
 
+INPLACE = [("*=2", lambda v, w, f: operator.imul(v, f(2)), False), ("*=-2.5", lambda v, w, f: operator.imul(v, f(-2.5)), False), ("/=-4", lambda v, w, f: operator.itruediv(v, f(-4)), False),
+           ("/=0.5", lambda v, w, f: operator.itruediv(v, f(0.5)), False), ("+=w", lambda v, w, f: operator.iadd(v, w), True), ("-=w", lambda v, w, f: operator.isub(v, w), True)]
+
+
+def run_inplace(res: Result, dim, system, tier):
+    """augmented assignment on SymPy vectors (they go through their own helper that re-stores the result in the target's
+    coordinate system): the stored expressions afterwards, evaluated at the regular points, equal the stored values of a
+    60-digit object vector after the same augmented assignment"""
+    for flavor in ("generic", "momentum"):
+        for oname, f, binary in INPLACE:
+            for wsys in ([system, L.CART[dim]] if binary else [None]):
+                res.states += 1
+                res.transitions += 1
+                case = {"inplace": oname, "sysA": list(system), "sysB": list(wsys) if wsys else None, "flavor": flavor, "dim": dim}
+                cls = f"inplace|{oname}|{L.sysname(system)}" + (f"|{L.sysname(wsys)}" if wsys else "") + f"|{flavor}"
+                va, syms_a = sym_vector(dim, system, flavor, "1")
+                vb, syms_b = (sym_vector(dim, wsys, "generic", "2") if wsys else (None, []))
+                try:
+                    r = f(va, vb, lambda x: sympy.Rational(x).limit_denominator(16) if x != int(x) else sympy.Integer(int(x)))
+                    rsys, rexprs = L.system_of(r)
+                    fns = [sympy.lambdify(list(syms_a) + list(syms_b), sympy.sympify(e), modules="mpmath") for e in rexprs]
+                except Exception as e:  # noqa: BLE001
+                    res.violation(f"raises|{cls}", f"{oname} on a SymPy vector raised {type(e).__name__}: {str(e).strip()[:200]}", case)
+                    continue
+                if r is not va or rsys != tuple(system):
+                    res.violation(f"type|{cls}", f"{oname} on a SymPy vector stored as {system} gave {'a new object' if r is not va else 'the same object'} stored as {rsys}", case)
+                    continue
+                firsts = regular_vectors(dim, tier)
+                bs = [p for p in A.partners(dim, "thorough") if not (p.has("spacelike") or p.has("negtime") or p.has("fast"))]
+                for i, a in enumerate(firsts):
+                    b = bs[i % len(bs)] if wsys else None
+                    sta = S.stored(a, system)
+                    stb = S.stored(b, wsys) if b is not None else ()
+                    if sta is None or stb is None:
+                        res.count("operand_not_representable")
+                        continue
+                    oa = L.build_object(MP_CLASS[(flavor, dim)], system, sta)
+                    ob = L.build_object(MP_CLASS[("generic", dim)], wsys, stb) if b is not None else None
+                    res.transitions += 2
+                    try:
+                        ref = f(oa, ob, lambda x: mpf(x))
+                    except Exception:  # noqa: BLE001
+                        res.count("object_backend_raises")
+                        continue
+                    osys, ost = L.system_of(ref)
+                    c = G.from_stored(osys, tuple(x if isinstance(x, mpf) else mpf(x) for x in ost))
+                    if c is None or (dim == 4 and (c[3] <= 0 or G.tau2(c) <= 0)) or (dim >= 3 and G.hyp(c[0], c[1]) < mpf(10) ** -20):
+                        res.count("result_outside_regular_domain")
+                        continue
+                    pcase = dict(case, a=list(a.comps), b=list(b.comps) if b is not None else None)
+                    try:
+                        got = [fn(*(list(sta) + list(stb))) for fn in fns]
+                    except Exception as e:  # noqa: BLE001
+                        res.violation(f"evaluation|{cls}", f"evaluating the stored expressions after {oname} raised {type(e).__name__}: {str(e)[:160]}", pcase)
+                        break
+                    bad = None
+                    for nme, g, w in zip(L.field_names(osys), got, ost):
+                        res.traces += 1
+                        res.evaluations += 1
+                        g = g if isinstance(g, mpf) else mpmath.mpmathify(g)
+                        w = w if isinstance(w, mpf) else mpf(w)
+                        ok = S.close(g, w, mpf(64), TOL) or (nme == "phi" and S.angle_close(g, w, TOL))
+                        if not ok:
+                            bad = f"{nme} evaluates to {mpmath.nstr(g, 25)}, the object backend stores {mpmath.nstr(w, 25)}"
+                            break
+                        res.nontrivial += 1
+                    if bad:
+                        res.violation(f"value|{cls}", f"after {oname}: {bad}", pcase)
+                        break
+    res.sample({"kind": "inplace", "sys": list(system), "operators": [n for n, _, _ in INPLACE]})
+
+
 def run_shard(shard, tier):
     res = Result()
+    if shard.get("kind") == "inplace":
+        run_inplace(res, shard["dim"], tuple(shard["sys"]), tier)
+        return res
     op = BY_KEY[shard["op"]]
     dimA, dimB = shard["dimA"], shard["dimB"]
     only_sa = tuple(shard["sysA"]) if "sysA" in shard else None
@@ -270,6 +349,9 @@ def run_shard(shard, tier):
 
 def replay(case):
     res = Result()
+    if "inplace" in case:
+        run_inplace(res, case["dim"], tuple(case["sysA"]), "thorough")
+        return res
     op = BY_KEY[case["op"]]
     sa = tuple(case["sysA"])
     sb = tuple(case["sysB"]) if case.get("sysB") else None
